@@ -49,18 +49,31 @@ package network_delegation
 // round-tripping of balance.Coin); everything above these is proved against them.
 // (get starts from a zero OLT coin and only OLT coins are ever stored - see set - so the currency of the
 // result is OLT also when the read fails)
-//@ assume func (*Store).get
+// (get/set are additionally VERIFIED at the raw layer - `claims`: checked on the body, not handed to callers: the record of
+// key k is the State record under exactly k; a successful set leaves the serialised coin there and writes nothing else, a
+// failed one writes nothing; get decodes what is visible under k into a coin that starts as zero OLT)
+//@ func (*Store).get
+//@   assumes st != nil && st.State != nil && wfState(st.State)
 //@   modifies nothing
-//@   ensures coin != nil && fresh(coin) && coin.Amount != nil && fresh(coin.Amount) && coin.Currency.Name == "OLT"
-//@   ensures (err == nil) == ndOK(st)[str(key)]
-//@   ensures err == nil ==> big(coin.Amount) == ndRaw(st)[str(key)]
+//@   trustframe
+//@   trusts coin != nil && fresh(coin) && coin.Amount != nil && fresh(coin.Amount) && coin.Currency.Name == "OLT"
+//@   trusts (err == nil) == ndOK(st)[str(key)]
+//@   trusts err == nil ==> big(coin.Amount) == ndRaw(st)[str(key)]
+//@   claims coin != nil && fresh(coin)                                                                        // C12.raw-record
+//@   claims err == nil && !old(exhausted(st.State.cache)) && vHas(st.State)[str(key)] && !isnil(vVal(st.State)[str(key)]) ==> *coin == deser(vVal(st.State)[str(key)], "balance.Coin")   // C12.raw-record
 
-//@ assume func (*Store).set
+//@ func (*Store).set
 //@   requires st != nil && coin != nil && coin.Amount != nil
 //@   requires coin.Currency.Name == "OLT"                                                                    // C12.olt-only
+//@   assumes st.State != nil && wfState(st.State)
+//@   assumes !tomb(ser(*coin, "balance.Coin"))                                                                // A-NOTOMB a serialised record is never the deletion marker
 //@   modifies ndRaw(st)[str(key)], ndHas(st)[str(key)], ndOK(st)[str(key)], vHas(st.State), vVal(st.State)
-//@   ensures err == nil ==> ndRaw(st)[str(key)] == big(coin.Amount) && ndHas(st)[str(key)] && ndOK(st)[str(key)]
-//@   ensures err != nil ==> ndRaw(st)[str(key)] == old(ndRaw(st))[str(key)] && ndHas(st)[str(key)] == old(ndHas(st))[str(key)] && ndOK(st)[str(key)] == old(ndOK(st))[str(key)]
+//@   trustframe
+//@   trusts err == nil ==> ndRaw(st)[str(key)] == big(coin.Amount) && ndHas(st)[str(key)] && ndOK(st)[str(key)]
+//@   trusts err != nil ==> ndRaw(st)[str(key)] == old(ndRaw(st))[str(key)] && ndHas(st)[str(key)] == old(ndHas(st))[str(key)] && ndOK(st)[str(key)] == old(ndOK(st))[str(key)]
+//@   claims err == nil ==> vHas(st.State)[str(key)] && vVal(st.State)[str(key)] == ser(old(*coin), "balance.Coin")   // C12.raw-record
+//@   claims err == nil ==> forall k string :: k != str(key) ==> vHas(st.State)[k] == old(vHas(st.State))[k] && vVal(st.State)[k] == old(vVal(st.State))[k]   // C12.raw-record
+//@   claims err != nil ==> vHas(st.State) == old(vHas(st.State)) && vVal(st.State) == old(vVal(st.State))   // C12.raw-record
 
 // ---------------------------------------------------------------- re-aiming
 
